@@ -67,6 +67,8 @@ def check(model: Model, run: Run) -> None:
     from ..tlvcheck import nonconstant_tags
     nonconstant_tags(ex, run, "B11-writer-tags-are-constants")
     enumerated_values(model, ex, run)
+    from .c07 import constructed_flush
+    constructed_flush(model, run)
 
 
 # RFC 4511 section 4.1.9 (resultCode), 4.5.1 (scope, derefAliases): the named numbers of each ENUMERATED type, under the
